@@ -102,6 +102,9 @@ func c19(args []string) error {
 		case 2:
 			s := r.Intn(L)
 			l := r.Intn(L - s + 1)
+			if r.Intn(4) == 0 { // the whole alignment as window: still a copy
+				s, l = 0, L
+			}
 			op = c19op{"SubAlign", func() string { return fmt.Sprintf("OSubAlign %s %s", coqZ(s), coqZ(l)) },
 				func(a align.Alignment) (align.SeqBag, error) { return a.SubAlign(s, l) }}
 		case 3:
@@ -243,9 +246,18 @@ func c19(args []string) error {
 					a.LongestORF(true)
 					a.LongestORF(false)
 				case "Phaser.Phase":
+					// translating a sequence reads it only
+					for k := 0; k < a.NbSequences(); k++ {
+						if sq, ok := a.Sequence(k); ok {
+							sq.Translate(k%3, align.GENETIC_CODE_STANDARD)
+						}
+					}
 					ph := align.NewPhaser()
 					ph.SetReverse(true)
 					ph.SetCpus(2)
+					if len(qn)%2 == 0 || a.NbSequences()%2 == 0 {
+						ph.SetTranslate(true, align.GENETIC_CODE_STANDARD)
+					}
 					ch, e := ph.Phase(nil, a)
 					if e == nil {
 						for range ch {
